@@ -17,9 +17,7 @@ def validate(events, wd, name="tr", fallback_sel0=False, timeout=1500):
 
 def report_rejections(rep, pid, rec, rej, canaries):
     ids = {x[1]: x for x in rej}
-    for c in canaries:
-        if c not in ids:
-            raise MachineryError("binding self-test: corrupted event %d accepted by the trace spec" % c)
+    missing = [c for c in canaries if c not in ids]
     byid = {e["tid"]: e for e in rec.events}
     for tid, x in ids.items():
         if tid in canaries:
@@ -27,6 +25,10 @@ def report_rejections(rep, pid, rec, rej, canaries):
         e = byid[tid]
         slim = {k: (v if not isinstance(v, list) or len(v) < 400 else v[:400]) for k, v in e.items()}
         rep.violation("%s:%s:%s" % (pid, e["op"], x[2].split(":")[0]), "%s event rejected by the specification: %s" % (e["op"], x[2]), slim)
+    # canaries are copies of REAL events with one field corrupted; if the real code misbehaves the copy may be meaningless,
+    # so a missing canary rejection is a machinery failure only when the run is otherwise clean
+    if missing and not rep.violations:
+        raise MachineryError("binding self-test: corrupted event(s) %r accepted by the trace spec" % missing)
 
 
 ORDERINGS = [list(p) for n in (1, 2, 3) for p in itertools.permutations(["cust", "ecc", "update"], n)]
